@@ -79,6 +79,10 @@ func (p *Core) Exec(w *sim.World, op sim.Op) {
 		p.execDonate(op)
 	case "rladm":
 		p.execRateAdmin(op)
+	case "atk":
+		p.execAttack(op)
+	case "grant":
+		p.execGrant(op)
 	case "lhv":
 		p.execLocalVerify(op)
 	case "lhop":
@@ -533,6 +537,10 @@ func (p *Core) applyTx(ci int, r *sim.TxResult) {
 		p.applyXfer(ci, r)
 	case "donate":
 		p.applyDonate(ci, r)
+	case "atk":
+		p.applyAttack(ci, r)
+	case "grant":
+		p.applyGrant(ci, r)
 	case "send2":
 		if ps == nil {
 			return
